@@ -24,9 +24,14 @@ EXTENDS Lfo, TraceLib, Tables
 
 VARIABLES l, dead,
           lastG,    \* <<valid, sinQ, tri4, ticks since, step of the last tick>> of the last read-out
-          lastNeg   \* <<frac, acc>> of the last set_phase with a negative argument
+          lastNeg,  \* <<frac, acc>> of the last set_phase with a negative argument
+          want      \* upper bound of the increment last REQUESTED (ideal step + rounding allowance)
 
-tvars == <<lfoVars, l, dead, lastG, lastNeg>>
+tvars == <<lfoVars, l, dead, lastG, lastNeg, want>>
+
+\* the phase step C12's bounds refer to: what the oscillator really does per tick, but no more than
+\* what was asked for (an oscillator running faster than requested is not excused by its own speed)
+StepNow == Min2(inc, want)
 
 e == Rec[l]
 
@@ -53,9 +58,10 @@ PhaseTags(what) ==
 CeilDiv(x, d) == -((-x) \div d)
 
 \* bounds of the realised increment for an ideal step fl + fr/2^16
+StepUpper == e.fl + (e.fr + CeilDiv(e.fl + 1, 128) + 1) \div 65536
 StepTags ==
   LET eps16 == CeilDiv(e.fl + 1, 128) + 1      \* 2^-23 relative, in 2^-16 units, + slack
-      upper == e.fl + (e.fr + eps16) \div 65536
+      upper == StepUpper
       lower == Max2(0, e.fl + CeilDiv(e.fr - eps16, 65536) - 1)
   IN IF \E i \in lower..upper : i % M = e.st THEN {} ELSE {<<"C11", "increment">>}
 
@@ -82,18 +88,18 @@ StepOf(n, d) ==
   ELSE {}
 
 ---------------------------------------------------------------------------
-TMeta == e.op = "meta" /\ UNCHANGED <<lfoVars, dead, lastG, lastNeg>> /\ l' = l + 1
+TMeta == e.op = "meta" /\ UNCHANGED <<lfoVars, dead, lastG, lastNeg, want>> /\ l' = l + 1
 
 TNew ==
   /\ e.op = "new"
   /\ acc' = 0 /\ inc' = 0 /\ rolled' = FALSE /\ lastAcc' = 0
   /\ l' = l + 1 /\ dead' = {}
-  /\ lastG' = <<FALSE, 0, 0, 0, 0>> /\ lastNeg' = <<-1, -1>>
+  /\ lastG' = <<FALSE, 0, 0, 0, 0>> /\ lastNeg' = <<-1, -1>> /\ want' = 0
 
 TTick ==
   /\ e.op = "t"
   /\ Tick
-  /\ lastG' = <<lastG[1], lastG[2], lastG[3], lastG[4] + 1, inc>>
+  /\ lastG' = <<lastG[1], lastG[2], lastG[3], lastG[4] + 1, StepNow>> /\ want' = want
   /\ UNCHANGED lastNeg
   /\ Advance(PhaseTags("tick-advance"))
 
@@ -101,13 +107,15 @@ TSetFreq ==
   /\ e.op = "sf"
   /\ SetInc(e.st)
   /\ UNCHANGED <<lastG, lastNeg>>
+  /\ want' = StepUpper
   /\ Advance(StepTags \cup PhaseTags("setfreq-phase-jump"))
 
 TSetPhase ==
   /\ e.op = "sp"
   /\ SetPhase(IF e.a >= 0 /\ e.a < M THEN e.a ELSE acc)
   /\ lastG' = <<FALSE, 0, 0, 0, 0>>
-  /\ lastNeg' = IF e.neg THEN <<e.lo, e.a>> ELSE lastNeg
+  /\ lastNeg' = (IF e.neg THEN <<e.lo, e.a>> ELSE lastNeg)
+  /\ want' = want
   /\ Advance(   (IF e.a < 0 \/ e.a >= M THEN {<<"C11", "set-phase-range">>} ELSE {})
            \cup (IF ~e.neg /\ (e.a < e.lo - 4 \/ e.a > e.hi + 4) THEN {<<"C11", "set-phase">>} ELSE {})
            \cup (IF e.neg /\ e.lo = e.hi /\ lastNeg[1] = e.lo /\ lastNeg[2] # e.a
@@ -118,31 +126,31 @@ TReset ==
   /\ e.op = "r"
   /\ Reset
   /\ lastG' = <<FALSE, 0, 0, 0, 0>>
-  /\ UNCHANGED lastNeg
+  /\ UNCHANGED <<lastNeg, want>>
   /\ Advance(PhaseTags("reset"))
 
 TGet ==
   /\ e.op = "g"
-  /\ UNCHANGED <<lfoVars, lastNeg>>
+  /\ UNCHANGED <<lfoVars, lastNeg, want>>
   /\ lastG' = <<TRUE, e.sin, e.tri, 0, 0>>
   /\ Advance(GetTags \cup StepOf(lastG[4], lastG[5]))
 
 TTickGet ==
   /\ e.op = "tg"
   /\ Tick
-  /\ UNCHANGED lastNeg
+  /\ UNCHANGED <<lastNeg, want>>
   /\ lastG' = <<TRUE, e.sin, e.tri, 0, 0>>
-  /\ Advance(GetTags \cup StepOf(lastG[4] + 1, inc))
+  /\ Advance(GetTags \cup StepOf(lastG[4] + 1, StepNow))
 
 \* a panic is an event no action accepts: C17 always, and the property about the call that panicked
 TPanic ==
   /\ e.op = "panic"
-  /\ UNCHANGED <<lfoVars, lastG, lastNeg>>
+  /\ UNCHANGED <<lfoVars, lastG, lastNeg, want>>
   /\ Advance({<<"C17", "panic">>} \cup (IF e.during \in {"get", "tick+get"} THEN {<<"C10", "panic-reading-shapes">>}
                                         ELSE {<<"C11", "panic">>}))
 
 TNext == l <= NRec /\ (TMeta \/ TNew \/ TTick \/ TSetFreq \/ TSetPhase \/ TReset \/ TGet \/ TTickGet \/ TPanic)
-TInit == PA_Init /\ l = 1 /\ dead = {} /\ lastG = <<FALSE, 0, 0, 0, 0>> /\ lastNeg = <<-1, -1>> /\ FlagInit
+TInit == PA_Init /\ l = 1 /\ dead = {} /\ lastG = <<FALSE, 0, 0, 0, 0>> /\ lastNeg = <<-1, -1>> /\ want = 0 /\ FlagInit
 TSpec == TInit /\ [][TNext]_tvars
 TInv == acc \in 0..(M - 1)
 =============================================================================
